@@ -117,6 +117,21 @@ func c15Run(flow string, api bool, redir string, id int) c15Case {
 		login("u3", "Login", Desc{K: "pw", U: "u3"})
 		last = r.exec(SymStep{Kind: "req", Req: &SymReq{Browser: "b1", Method: "POST", Route: "SmsValidate", Query: q,
 			Form: []KV{{"code", Desc{K: "sessval", B: "b1", V: "sms_secret"}}}}})
+	case "totpcarry", "smscarry":
+		// the return target is given to the FIRST step only (in the body in form mode, in the JSON body / query in
+		// API mode); the second-factor step carries none: wherever that step sends the browser, it is the default
+		// or a guarded value
+		u, route, code := "u2", "TotpValidate", Desc{K: "totp", U: "u2"}
+		if flow == "smscarry" {
+			u, route = "u3", "SmsValidate"
+		}
+		first := SymReq{Browser: "b1", Method: "POST", Route: "Login",
+			Form: []KV{{"email", Desc{K: "pid", U: u}}, {"password", Desc{K: "pw", U: u}}, {"redir", lit(redir)}}}
+		r.exec(SymStep{Kind: "req", Req: &first})
+		if flow == "smscarry" {
+			code = Desc{K: "sessval", B: "b1", V: "sms_secret"}
+		}
+		last = r.exec(SymStep{Kind: "req", Req: &SymReq{Browser: "b1", Method: "POST", Route: route, Form: []KV{{"code", code}}}})
 	case "oauth2", "oauth2x":
 		c.Default = hx("/ok/oauth2")
 		if flow == "oauth2x" { // another pass-through parameter travels along
@@ -154,9 +169,9 @@ func init() {
 			if *count > 0 && *first+*count < hi {
 				hi = *first + *count
 			}
-			id := *first * 14
+			id := *first * 18
 			for i := *first; i < hi; i++ {
-				for _, flow := range []string{"password", "passwordform", "otp", "totp", "sms", "oauth2", "oauth2x"} {
+				for _, flow := range []string{"password", "passwordform", "otp", "totp", "sms", "oauth2", "oauth2x", "totpcarry", "smscarry"} {
 					for _, api := range []bool{false, true} {
 						if flow == "passwordform" && api {
 							continue
